@@ -95,8 +95,8 @@ func VHC08Binding() {
 		ret = "for (ix = 0; ix < 3; ix++) { if (ix == 1) return ix }" // the value of ix at the return, not after another step
 	}
 	// a nested call that completed with a return value must not leak into f's own result
-	prog := "function h() { return 'H' }\nfunction f(" + plist + ") {\n" + body + "local = 'L'\nglob = 'G'\ntmp = h()\n" + ret + "\nprint 'fell off', tmp\n}\n" +
-		"{ glob = 'g0'\nx0 = $.a0\ngz = 'GZ'\nmz = match (5) { gz => gz + 1 }\n" + pre + "r = f(" + args + ")\nprint 'r', r\nprint 'glob', glob\nprint local is unknown, z is unknown, q is unknown\n" + pcheck + "\nprint 'x0', x0, $.a0\nprint gz, mz\n" + post + "}"
+	prog := "function h() { return 'H' }\nfunction f(" + plist + ") {\n" + body + "local = 'L'\nglob = 'G'\ntmp = h()\nfor (lv in ['x', 'y']) { tmp2 = lv }\n" + ret + "\nprint 'fell off', tmp\n}\n" +
+		"{ glob = 'g0'\nx0 = $.a0\ngz = 'GZ'\nmz = match (5) { gz => gz + 1 }\nlv = 'GL'\n" + pre + "r = f(" + args + ")\nprint 'r', r\nprint 'glob', glob\nprint local is unknown, z is unknown, q is unknown\n" + pcheck + "\nprint 'x0', x0, $.a0\nprint gz, mz, lv\n" + post + "}"
 	out, k := runProg(prog, doc)
 	want := ""
 	for i, p := range params {
@@ -130,7 +130,8 @@ func VHC08Binding() {
 	} else {
 		want += "x0 null null\n"
 	}
-	want += "GZ 6\n" // a pattern name spelled like an existing variable of the same scope shadows it for the case only
+	want += "GZ 6 y\n" // (lv: a for-in inside the function whose variable is an existing global assigns that global)
+	_ = 0              // a pattern name spelled like an existing variable of the same scope shadows it for the case only
 	want += postWant
 	vh.Reach("call evaluated")
 	vh.Assert(k == OK, "C08: a call with any argument count succeeds")
